@@ -106,7 +106,7 @@ class TlcResult:
         self.trace = []         # counterexample states (raw text) if any
 
 
-_VEC_RE = re.compile(r'^<<"([A-Z_]+)", (".*")>>$')
+_VEC_RE = re.compile(r'^<<"([A-Z_]+)", (".*")>>(?:  (?:TRUE|FALSE))?$')
 
 
 def _parse_tlc_output(res, out, want_tags=("VEC",)):
